@@ -21,6 +21,8 @@ struct Ch {
     cons: Vec<(usize, String, Vec<(u64, Vec<u8>)>)>,
     blocked_rpc: bool,
     fired_publishes: usize,
+    plain: bool,
+    plain_cons: usize,
 }
 
 fn mk_msg(dtag: u64, len: usize) -> Msg {
@@ -77,9 +79,17 @@ fn case(r: &mut Rng, res: &mut CaseResult) {
         };
         let actor = Actor::spawn(c, &format!("c{}", i));
         let mut cons = Vec::new();
+        // "plain" channels behave like user code: no receiver clones are kept and the
+        // owner drops consumers and channel the moment a call fails
+        let plain = r.chance(1, 3);
+        let mut plain_cons = 0;
         for _ in 0..r.usize(0, 3) {
-            if let Some(Rep::Consumed(idx, tag)) = actor.call(Cmd::Consume { observed: true }) {
-                cons.push((idx, tag, vec![]));
+            if let Some(Rep::Consumed(idx, tag)) = actor.call(Cmd::Consume { observed: !plain }) {
+                if !plain {
+                    cons.push((idx, tag, vec![]));
+                } else {
+                    plain_cons += 1;
+                }
             }
         }
         chans.push(Ch {
@@ -87,6 +97,8 @@ fn case(r: &mut Rng, res: &mut CaseResult) {
             cons,
             blocked_rpc: false,
             fired_publishes: 0,
+            plain,
+            plain_cons,
         });
     }
     // the scenario's own channel for id-tagged operations
@@ -112,12 +124,20 @@ fn case(r: &mut Rng, res: &mut CaseResult) {
     }
     // callers blocked in RPCs on other threads
     for ch in chans.iter_mut() {
-        if r.chance(1, 3) {
+        if r.chance(1, 3) || (ch.plain && r.bool()) {
             let id = ch.actor.id;
             h.with(|st| {
                 st.reflex.hold_channels.insert(id);
             });
-            ch.actor.send(Cmd::Rpc);
+            // A plain owner is in the middle of cancelling a consumer (which it drops as
+            // soon as cancel returns, whatever it returns) or of an RPC.
+            ch.actor.send(if ch.plain && ch.plain_cons > 0 {
+                Cmd::CancelAndDrop(0)
+            } else if ch.plain {
+                Cmd::RpcThenDropAllOnError
+            } else {
+                Cmd::Rpc
+            });
             h.wait(W, |st| st.reflex.held.iter().any(|x| x.ch == id));
             ch.blocked_rpc = true;
         }
